@@ -430,6 +430,12 @@ def soft_stage(check, props, what):
             if not okc:
                 entry["status"] = "bridge no longer checks for the current source (the generated code differs from the hand model, or a proof broke)"
                 entry["lean_errors"] = [ln for ln in out.splitlines() if ln.startswith("error:")][:5]
+            elif check.tier == "thorough" and not os.environ.get("VERIF_NO_LEANCHECKER"):
+                with LeanLock():
+                    lc = subprocess.run(["lake", "env", "leanchecker", f"IxaiVerif.Props.{name}"], cwd=LEAN_DIR, capture_output=True, text=True)
+                entry["leanchecker_exit"] = lc.returncode
+                if lc.returncode != 0:
+                    entry["status"] = "leanchecker rejects the compiled bridge module: " + (lc.stdout + lc.stderr)[-300:]
         if entry["status"] != "checked":
             all_ok = False
             check.boost = max(check.boost, 4)
